@@ -266,6 +266,13 @@ pub fn observe_bw_r<R: bigtools::BBIFileRead>(c: &J, ctx: &mut Ctx, mut r: BigWi
     let mut obs = json!({"result": "ok", "digest": d});
     let chroms: Vec<(String, u32)> = r.chroms().iter().map(|c| (c.name.clone(), c.length)).collect();
     obs["chroms"] = J::Array(chroms.iter().map(|(n, l)| json!([ctx.chrom_idx(n), ctx.pos_out(*l)])).collect());
+    if c["qorder"].as_str().unwrap_or("asc") == "shuffle" {
+        // the first thing this reader instance is asked is about the LAST chromosome (answer not used): whatever it
+        // remembers from that must not hurt the earlier chromosomes
+        if let Some((n, l)) = chroms.last() {
+            if let Ok(it) = r.get_interval(n, 0, *l) { let _ = it.count(); }
+        }
+    }
     let mut read = vec![];
     for (n, l) in chroms.iter() {
         match r.get_interval(n, 0, *l) {
@@ -386,6 +393,12 @@ pub fn observe_bb_r<R: bigtools::BBIFileRead>(c: &J, ctx: &mut Ctx, mut r: BigBe
     let chroms: Vec<(String, u32)> = r.chroms().iter().map(|c| (c.name.clone(), c.length)).collect();
     obs["chroms"] = J::Array(chroms.iter().map(|(n, l)| json!([ctx.chrom_idx(n), ctx.pos_out(*l)])).collect());
     let id_of = |rest: &str| -> i64 { if uniq { *rests.get(rest).unwrap_or(&0) } else if rests.contains_key(rest) { -1 } else { 0 } };
+    if c["qorder"].as_str().unwrap_or("asc") == "shuffle" {
+        // the first thing this reader instance is asked is about the LAST chromosome (answer not used)
+        if let Some((n, _)) = chroms.last() {
+            if let Ok(it) = r.get_interval(n, 0, u32::MAX) { let _ = it.count(); }
+        }
+    }
     let mut read = vec![];
     let mut readok = 1;
     'outer: for (n, _l) in chroms.iter() {
